@@ -205,11 +205,11 @@ def pool_for(pid, tier, seed):
 
 BUDGET = {
     # pid: (quick cases per configuration, quick max program length, thorough cases, thorough max length)
-    'C01': (5000, 30, 60000, 90), 'C02': (5000, 30, 60000, 80), 'C03': (4000, 28, 50000, 60), 'C04': (4000, 28, 50000, 60),
-    'C05': (4000, 28, 50000, 60), 'C06': (6000, 30, 80000, 80), 'C07': (4000, 30, 50000, 80), 'C08': (1500, 16, 20000, 30),
-    'C09': (4000, 24, 50000, 60), 'C10': (5000, 25, 60000, 70), 'C11': (4000, 25, 50000, 60), 'C12': (4000, 22, 50000, 50),
-    'C13': (5000, 24, 60000, 40), 'C14': (5000, 24, 60000, 40), 'C16': (4000, 30, 50000, 80), 'C18': (5000, 18, 60000, 40),
-    'C17': (150, 12, 2500, 30),
+    'C01': (5000, 30, 20000, 80), 'C02': (5000, 30, 20000, 70), 'C03': (4000, 28, 16000, 60), 'C04': (4000, 28, 16000, 60),
+    'C05': (4000, 28, 16000, 60), 'C06': (6000, 30, 24000, 70), 'C07': (4000, 30, 16000, 70), 'C08': (1500, 16, 12000, 30),
+    'C09': (4000, 24, 16000, 60), 'C10': (5000, 25, 20000, 60), 'C11': (4000, 25, 16000, 60), 'C12': (4000, 22, 16000, 50),
+    'C13': (5000, 24, 20000, 40), 'C14': (5000, 24, 20000, 40), 'C16': (4000, 30, 16000, 70), 'C18': (5000, 18, 20000, 40),
+    'C17': (150, 12, 1500, 30),
 }
 
 RULES = {
